@@ -1,13 +1,11 @@
 package main
 
 import (
-	"errors"
 	"fmt"
 	"os"
 	"path/filepath"
 	"strings"
 	"sync"
-	"syscall"
 	"time"
 )
 
@@ -56,19 +54,19 @@ func (w *world) monitorAfterWrite(i int, files map[string][]byte, cr callResult)
 	}
 	if w.c.BadName {
 		// names outside the model (path separators): Write may fail, the target must stay complete
-		w.monitorReader(fmt.Sprintf("after write #%d with an invalid file name (err=%s)", i, errName(cr.err)))
+		w.monitorReader(fmt.Sprintf("after write #%d with an invalid file name (err=%s)", i, cr.errName))
 		return
 	}
-	if cr.err != nil {
+	if cr.errName != "nil" {
 		id := "write-fails"
-		if errors.Is(cr.err, syscall.EEXIST) && strings.Contains(cr.err.Error(), ".new") {
+		if cr.errName == "EEXIST" && strings.Contains(cr.errText, ".new") {
 			id = "stale-new-blocks-writes"
 		}
 		fresh := "the same Dir"
 		if !w.pure {
 			fresh = "a Dir created after a crash/restart"
 		}
-		w.res.Violate(id, fmt.Sprintf("Write #%d by %s returned %v", i, fresh, cr.err), w.c)
+		w.res.Violate(id, fmt.Sprintf("Write #%d by %s returned %s", i, fresh, cr.errText), w.c)
 		w.monitorReader(fmt.Sprintf("after failed write #%d", i))
 		return
 	}
